@@ -86,6 +86,29 @@ def named():
     add('comp_dict_set_gen', [A(0), ('expr', [('comp', 'dict', [([1], R(2), [])], R(3), R(4))]),
                               ('expr', [('comp', 'set', [([5], [], [])], R(6))]),
                               ('expr', [('comp', 'gen', [([7], [], [])], R(8))])], ties=[[1, 5, 7], [3, 4], [6, 8]])
+    add('comp_in_def_shadow', [A(0), ('def', 1, [], [], None,
+                                      [X(2), ('expr', [('comp', 'list', [([3], R(4), [])], R(5))]), X(6)]), ('call', 7)],
+        'a comprehension variable is not a local of the enclosing function: it must not hide an outer name there',
+        ties=[[1, 7], [2, 6]])
+    add('while_test_comp', [A(0), ('while', [('r', 1), ('comp', 'list', [([2], R(3), [])], R(4))], [X(5), A(6)], [])],
+        'while test that contains a comprehension after a plain read: the back edge must reach the whole test',
+        ties=[[1, 5], [3, 4]])
+    add('try_handler_nested', [('try', [A(0)], [(None, None, [('if', [], [X(1)], []), A(2)])], [A(3)], []), X(4)],
+        'binding made in an except handler after a nested compound statement', ties=[[0, 3]])
+    add('try_handler_nested_fin', [A(0), ('try', [('pass',)], [(None, 1, [('for', [2], [], [('pass',)], []), A(3)])], [],
+                                   [X(4)]), X(5)], ties=[[4, 5]])
+    add('class_in_class', [A(0), ('class', 1, [], [], [], [A(2), ('class', 3, [], [], [], [X(4), A(5), X(6)])])],
+        'a class nested in a class body does not see the outer class body', ties=[[4, 6]])
+    add('nonlocal_twice', [('def', 0, [], [], None,
+                            [A(1), A(2), ('def', 3, [], [], None,
+                                          [('nonlocal', [4]), ('nonlocal', [5]), A(6), X(7), A(8), X(9)]),
+                             ('call', 10), X(11)]), ('call', 12)],
+        'two nonlocal statements in one function', ties=[[0, 12], [3, 10], [1, 4, 6, 7, 11], [2, 5, 8, 9]])
+    add('global_in_nested', [A(0), ('def', 1, [], [], None,
+                                    [A(2), ('def', 3, [], [], None, [('global', [4]), X(5), A(6), X(7)]),
+                                     ('call', 8), X(9)]), ('call', 10), X(11)],
+        'global declared in a function nested in a function that has a local of the same name',
+        ties=[[1, 10], [3, 8], [0, 2, 4, 5, 6, 7, 9, 11]])
     add('comp_in_class', [('class', 0, [], [], [], [A(1), ('expr', [('comp', 'list', [([2], R(3), [])], R(4))])])])
     return S
 
@@ -137,7 +160,7 @@ def enumerate_small(max_stmts=3, seed=0, limit=200):
     specs = []
     for c in comps:
         for i1 in inner_opts:
-            for i2 in ([[]] if c in ('if', 'for', 'while') else [['A'], ['X']]):
+            for i2 in ([[]] if c in ('if', 'for', 'while') else [['A'], ['X'], [('if', ['X'], []), 'A']]):
                 for pre in ([], ['A']):
                     for post in (['X'], ['A', 'X']):
                         specs.append(pre + [(c, i1, i2)] + post)
